@@ -111,6 +111,7 @@ type Exec struct {
 	replay        *ReplayInfo
 	loopHead      *State
 	scopePos      token.Pos
+	fieldHolder   *cbind
 	inLoopHavoc   bool
 	litOrd        map[*ast.FuncLit]int
 	written       map[string]bool // heap keys written on objects the caller can see
